@@ -455,6 +455,10 @@ def builtin_cname(ws, s):
 
 
 def parse_type(s):
+    # a lambda written without a parameter list has the call operator type 'auto () const -> R'
+    m = re.match(r'^auto \((.*)\)((?: const)?(?: noexcept)?) -> (.+)$', s)
+    if m and '->' not in m.group(3):
+        s = '%s (%s)%s' % (m.group(3), m.group(1), m.group(2))
     return TypeParser(s).parse()
 
 
@@ -723,6 +727,10 @@ class Unit:
             m = re.match(r'^std::(__atomic_base|atomic)<(.*)>$', name)
             if m:
                 return ('atomic', self.resolve(parse_type(m.group(2)), ctx))
+            m = re.match(r'^__gnu_cxx::__normal_iterator<(.*)>$', name)
+            if m and name not in self.cfg.outside_methods:
+                # libstdc++'s vector/string iterator is a wrapper of exactly one pointer whose operators are the pointer's
+                return self.resolve(parse_type(split_top_commas(m.group(1))[0]), ctx)
             if name in self.records:
                 return ('rec', name)
             alt = self._fuzzy_record(name)
